@@ -66,7 +66,7 @@ package ldiff
 // when the two answers prove the ranges equal: same non-empty hash, or both sides empty; (b) hands
 // two COMPLETE element lists of the range to the element comparison; or (c) schedules a refinement
 // that covers the range exactly (the whole range with elements requested, or the exact partition of
-// genTupleRanges).  An empty hash proves nothing: it is the answer both for an empty range and for a
+// genTupleRanges, element by element and in order).  An empty hash proves nothing: it is the answer both for an empty range and for a
 // range the answering side does not track (its elements are listed instead).
 //@ ghost cmpCalls Int stable
 //@ ghost cmpMy Slice stable
@@ -99,9 +99,8 @@ package ldiff
 //@   ensures [compares_complete_lists] cmpCalls > old(cmpCalls) ==> cmpOther == otherRes.Elements && len(otherRes.Elements) == otherRes.Count && ((cmpMy == myRes.Elements && len(myRes.Elements) == myRes.Count) || (cmpMy == grRes && grElements && grFrom == r.From && grTo == r.To))
 //@   ensures [refinement_is_one_of_two] len(dctx.prepare) > old(len(dctx.prepare)) ==> len(dctx.prepare) == old(len(dctx.prepare)) + 1 || len(dctx.prepare) == old(len(dctx.prepare)) + d.divideFactor
 //@   ensures [whole_range_with_elements] len(dctx.prepare) == old(len(dctx.prepare)) + 1 ==> dctx.prepare[old(len(dctx.prepare))].From == r.From && dctx.prepare[old(len(dctx.prepare))].To == r.To && dctx.prepare[old(len(dctx.prepare))].Elements
-//@   ensures [partition_first] len(dctx.prepare) == old(len(dctx.prepare)) + d.divideFactor ==> dctx.prepare[old(len(dctx.prepare))].From == r.From
-//@   ensures [partition_last] len(dctx.prepare) == old(len(dctx.prepare)) + d.divideFactor ==> dctx.prepare[len(dctx.prepare) - 1].To == r.To
-//@   ensures [partition_contiguous] len(dctx.prepare) == old(len(dctx.prepare)) + d.divideFactor ==> (forall k int :: old(len(dctx.prepare)) <= k && k < len(dctx.prepare) - 1 ==> dctx.prepare[k+1].From == dctx.prepare[k].To + 1)
+//@   ensures [refinement_is_the_partition] len(dctx.prepare) == old(len(dctx.prepare)) + d.divideFactor ==> len(rangeTuples) == d.divideFactor && (forall k int :: 0 <= k && k < d.divideFactor ==> dctx.prepare[old(len(dctx.prepare)) + k].From == rangeTuples[k].from && dctx.prepare[old(len(dctx.prepare)) + k].To == rangeTuples[k].to)
+//@   ensures [partition_covers_range] len(dctx.prepare) == old(len(dctx.prepare)) + d.divideFactor ==> rangeTuples[0].from == r.From && rangeTuples[d.divideFactor - 1].to == r.To && (forall k int :: 0 <= k && k < d.divideFactor - 1 ==> rangeTuples[k+1].from == rangeTuples[k].to + 1)
 //@   loop 0:
 //@     invariant -1 <= rangeindex && rangeindex < len(rangeTuples) && len(rangeTuples) == d.divideFactor
 //@     invariant len(dctx.prepare) == old(len(dctx.prepare)) + rangeindex + 1 && cmpCalls == old(cmpCalls)
